@@ -48,10 +48,8 @@ def get_intensities(big_edges,
 
             intensity_to_use = np.mean(list(map(np.median,
                                                 intensities_per_edge)))
-        try:
-            key_to_use = big_edges.index(big_edge)
-        except ValueError:
-            key_to_use = "ext_"+str(be_id)
+        # the position in the list identifies the big edge (the same edge may be listed twice)
+        key_to_use = be_id
 
         intensities[key_to_use] = intensity_to_use
         # big_edge.gt = intensities[key_to_use]
